@@ -95,17 +95,29 @@ def r2(ctx, prog):
                 lbl_blocks = {b["id"] for b in cfg.blocks.values() if b.get("label") == labels[0]}
                 w = w or cfg.must_pass(succ, [cfg.pt(r)], lambda e: False, edge_ok=lambda lab, p, q: q[0] not in lbl_blocks)
             ctx.check(R, bool(succ) and w is None, f.where(first), "after the initial field was claimed, `return false` is reached only through the roll-back", key="C14.R2:through", witness=w)
-        # undo of the initial field is conditional on field == initial_field and clears exactly initial_mask
+        # undo of the initial field is conditional on field == initial_field and clears exactly initial_mask; the two are
+        # identified by role: the mask or-ed in by the first claim, and the pointer the field cursor is set to before it
+        import C02
+        im_d = if_d = fp = None
+        if first is not None:
+            fp = rl.var_of(f, f.nodes[first]["ptr"])
+            ev = C02.expected_var(f, first)
+            dv1 = rl.var_of(f, f.nodes[first]["val2"])
+            for a_, rhs, op in (rl.reaching_defs(f, dv1, first) if dv1 is not None else []):
+                j = f.strip(rhs) if rhs is not None else None
+                if j is not None and f.nodes[j]["k"] == "BinaryOperator" and f.nodes[j]["op"] == "|":
+                    others = [rl.var_of(f, x) for x in f.nodes[j]["c"] if rl.var_of(f, x) not in (None, ev)]
+                    im_d = others[0] if len(others) == 1 else im_d
+            for a_, rhs, op in (rl.reaching_defs(f, fp, first) if fp is not None else []):
+                if rhs is not None and rl.var_of(f, rhs) is not None:
+                    if_d = rl.var_of(f, rhs)
         for e in undo_cas:
             dv = rl.var_of(f, f.nodes[e]["val2"])
             defs = [rhs for a, rhs, op in f.var_defs(dv) if rhs is not None and cfg.reaches(rb, cfg.pt(a))] if dv is not None else []
-            ok = any(any(f.nodes[y]["k"] == "UnaryOperator" and f.nodes[y]["op"] == "~" and "initial_mask" in f.text(y) for y in f.walk(r)) for r in defs)
+            ok = im_d is not None and any(any(f.nodes[y]["k"] == "UnaryOperator" and f.nodes[y]["op"] == "~" and rl.var_of(f, f.nodes[y]["c"][0]) == im_d for y in f.walk(r)) for r in defs)
             ctx.check(R, ok, f.where(e), "the undo clears ~initial_mask from the refreshed map", key="C14.R2:undo:mask")
             def is_initial(x, pol):
-                if not isinstance(x, int):
-                    return False
-                c = rl.norm_cmp(f, x, pol)
-                return c is not None and c[0] == "==" and "initial_field" in (f.text(c[1]) + f.text(c[2]))
+                return isinstance(x, int) and if_d is not None and rl.rel(f, x, pol, rl.is_local(f, fp), rl.is_local(f, if_d)) == "=="
             w = cfg.guarded(cfg.pt(e), is_initial)
             ctx.check(R, w is None, f.where(e), "the initial field is undone only if it had been claimed (field == initial_field after walking back)", key="C14.R2:undo:cond", witness=w)
         # intermediate fields restored with a release store of 0 in a loop walking back
